@@ -165,6 +165,15 @@ def run(ctx):
             rc = RefCtx(rng, p_type=0.7, p_value=0.3, p_con_on_ref=0.5, con_kinds=('octs',))
             arr2.append(('split-untagged', module_text(types, ctx=rc, tags='', split=True), False))
             groups.append(arr2)
+        if i % 3 == 0:
+            # EXTENSIBILITY IMPLIED: every SEQUENCE / SET / CHOICE / ENUMERATED written without `...` gets one — inline or referenced
+            arr3 = [('inline-ext-implied', module_text(types, ext_implied=True), False)]
+            for k in range(2):
+                rc = RefCtx(rng, p_type=rng.choice([0.5, 0.9]), p_value=0.3, p_con_on_ref=0.0)
+                arr3.append(('reorganised-ext-implied', module_text(types, ctx=rc, ext_implied=True), False))
+            rc = RefCtx(rng, p_type=0.7, p_value=0.3, p_con_on_ref=0.0)
+            arr3.append(('split-ext-implied', module_text(types, ctx=rc, ext_implied=True, split=True), False))
+            groups.append(arr3)
         vals = [[g.value(t) for _ in range(2)] for _, t in types]
         jobs.append((types, groups, vals))
     n = 28
